@@ -54,7 +54,7 @@ func hexDigitLower(v uint16) byte {
 //@ modifies dst[len(dst):cap(dst)]
 //@ ensures alias: sameOrFresh(result, dst)
 //@ ensures length: len(result) == len(dst)+6
-//@ ensures prefix: vForall(0, len(dst), func(i int) bool { return result[i] == dst[i] })
+//@ ensures prefix: vForall(0, len(dst), func(i int) bool { return result[i] == old(dst[i]) })
 //@ ensures bytes: result[len(dst)] == '\\' && result[len(dst)+1] == 'u' && result[len(dst)+2] == hexDigitLower(x/4096) && result[len(dst)+3] == hexDigitLower(x/256%16) && result[len(dst)+4] == hexDigitLower(x/16%16) && result[len(dst)+5] == hexDigitLower(x%16)
 
 // escASCIILen/escASCIIByte: the escaped spelling of an ASCII character that
@@ -108,8 +108,8 @@ func escASCIIByte(c byte, t int) byte {
 //@ modifies dst[len(dst):cap(dst)]
 //@ ensures alias: sameOrFresh(result, dst)
 //@ ensures length: len(result) == len(dst)+escASCIILen(c)
-//@ ensures prefix: vForall(0, len(dst), func(i int) bool { return result[i] == dst[i] })
-//@ ensures bytes: vForall(0, escASCIILen(c), func(t int) bool { return result[len(dst)+t] == escASCIIByte(c, t) })
+//@ ensures prefix: vForall(0, len(dst), func(i int) bool { return result[i] == old(dst[i]) })
+//@ ensures bytes: vForall(len(dst), len(dst)+escASCIILen(c), func(p int) bool { return result[p] == escASCIIByte(c, p-len(dst)) })
 
 // appendEscapedUnicode spells a rune as \uXXXX (a surrogate pair above the BMP).
 //
@@ -119,5 +119,164 @@ func escASCIIByte(c byte, t int) byte {
 //@ modifies dst[len(dst):cap(dst)]
 //@ ensures alias: sameOrFresh(result, dst)
 //@ ensures length: len(result) == len(dst)+ite(r >= 0x10000, 12, 6)
-//@ ensures prefix: vForall(0, len(dst), func(i int) bool { return result[i] == dst[i] })
+//@ ensures prefix: vForall(0, len(dst), func(i int) bool { return result[i] == old(dst[i]) })
 //@ ensures bmp: r < 0x10000 ==> result[len(dst)] == '\\' && result[len(dst)+1] == 'u' && result[len(dst)+2] == hexDigitLower(uint16(r)/4096) && result[len(dst)+3] == hexDigitLower(uint16(r)/256%16) && result[len(dst)+4] == hexDigitLower(uint16(r)/16%16) && result[len(dst)+5] == hexDigitLower(uint16(r)%16)
+
+// ---------------------------------------------------------------- AppendQuote
+//
+// quoteSpec, unit by unit (RFC 8259 section 7 / RFC 8785 section 3.2.2.2 plus
+// the two escape options): the text src[k:] is spelled as follows.
+//   - an ASCII byte that must be escaped (control, " or \, and < > & under
+//     EscapeForHTML) becomes its shortest escape; other ASCII bytes are copied;
+//   - a well-formed multi-byte sequence is copied, except U+2028/U+2029 under
+//     EscapeForJS, which become \u2028 / \u2029;
+//   - each byte that does not start a well-formed sequence becomes U+FFFD.
+// qLen is the length of that spelling and qByte its j-th byte.
+
+//@ spec qMustEscapeASCII
+func qMustEscapeASCII(c byte, html bool) bool {
+	return c < 0x20 || c == '"' || c == '\\' || (html && (c == '<' || c == '>' || c == '&'))
+}
+
+// qUnitLen: source bytes consumed by the unit at src[k].
+//
+//@ spec qUnitLen
+func qUnitLen(src []byte, k int) int {
+	if src[k] < 0x80 || utf8Len(src, k) <= 0 {
+		return 1
+	}
+	return utf8Len(src, k)
+}
+
+//@ spec qIsJS
+func qIsJS(src []byte, k int, js bool) bool {
+	return js && src[k] >= 0x80 && utf8Len(src, k) == 3 && (utf8Rune(src, k) == 0x2028 || utf8Rune(src, k) == 0x2029)
+}
+
+// qEncLen: output bytes produced for the unit at src[k].
+//
+//@ spec qEncLen
+func qEncLen(src []byte, k int, html, js bool) int {
+	c := src[k]
+	if c < 0x80 {
+		if qMustEscapeASCII(c, html) {
+			return escASCIILen(c)
+		}
+		return 1
+	}
+	if utf8Len(src, k) <= 0 {
+		return 3
+	}
+	if qIsJS(src, k, js) {
+		return 6
+	}
+	return utf8Len(src, k)
+}
+
+// qEncByte: the t-th output byte for the unit at src[k].
+//
+//@ spec qEncByte
+func qEncByte(src []byte, k int, html, js bool, t int) byte {
+	c := src[k]
+	if c < 0x80 {
+		if qMustEscapeASCII(c, html) {
+			return escASCIIByte(c, t)
+		}
+		return c
+	}
+	if utf8Len(src, k) <= 0 {
+		if t == 0 {
+			return 0xEF
+		}
+		if t == 1 {
+			return 0xBF
+		}
+		return 0xBD
+	}
+	if qIsJS(src, k, js) {
+		switch t {
+		case 0:
+			return '\\'
+		case 1:
+			return 'u'
+		case 2:
+			return '2'
+		case 3:
+			return '0'
+		case 4:
+			return '2'
+		}
+		if utf8Rune(src, k) == 0x2028 {
+			return '8'
+		}
+		return '9'
+	}
+	return src[k+t]
+}
+
+//@ spec qLen
+func qLen(src []byte, k int, html, js bool) int {
+	if k >= len(src) || k < 0 {
+		return 0
+	}
+	return qEncLen(src, k, html, js) + qLen(src, k+qUnitLen(src, k), html, js)
+}
+
+//@ spec qByte
+func qByte(src []byte, k int, html, js bool, j int) byte {
+	if k >= len(src) || k < 0 {
+		return 0
+	}
+	if j < qEncLen(src, k, html, js) {
+		return qEncByte(src, k, html, js, j)
+	}
+	return qByte(src, k+qUnitLen(src, k), html, js, j-qEncLen(src, k, html, js))
+}
+
+// qInvalid: some byte of src[k:] does not start a well-formed sequence.
+//
+//@ spec qInvalid
+func qInvalid(src []byte, k int) bool {
+	if k >= len(src) || k < 0 {
+		return false
+	}
+	return (src[k] >= 0x80 && utf8Len(src, k) <= 0) || qInvalid(src, k+qUnitLen(src, k))
+}
+
+//@ func AppendQuote
+//@ split
+//@ frame without offset,emitted,pending,length,invalid,prefix
+//@ property C02 C08 C11 C20
+//@ requires flags != nil && distinctArrays(dst, src)
+//@ modifies dst[len(dst):cap(dst)]
+//@ ensures alias: sameOrFresh(result0, dst)
+//@ ensures length: len(result0) == len(dst)+2+qLen(src, 0, flags.Get(jsonflags.EscapeForHTML), flags.Get(jsonflags.EscapeForJS))
+//@ ensures prefix without offset,emitted,pending,length,invalid,frame: vForall(0, len(dst), func(k int) bool { return result0[k] == old(dst[k]) })
+//@ ensures quotes without offset,emitted,pending,length,invalid,frame: result0[len(dst)] == '"' && result0[len(result0)-1] == '"'
+//@ ensures body without invalid,prefix,frame: vForall(len(dst)+1, len(result0)-1, func(p int) bool { return result0[p] == qByte(src, 0, flags.Get(jsonflags.EscapeForHTML), flags.Get(jsonflags.EscapeForJS), p-len(dst)-1) })
+//@ ensures err-iff: (result1 != nil) == (qInvalid(src, 0) && !flags.Get(jsonflags.AllowInvalidUTF8))
+//@ ensures err-is: result1 == nil || result1 == ErrInvalidUTF8
+//@ ensures src-kept without offset,emitted,pending,length,invalid,prefix,frame: unchanged(src)
+//@ loop 0 invariant range: 0 <= i && i <= n && n <= len(src) && len(dst) >= len(old(dst))+1 && dst[len(old(dst))] == '"'
+//@ loop 0 invariant prefix without offset,emitted,pending,length,invalid,frame: vForall(0, len(old(dst)), func(k int) bool { return dst[k] == old(dst[k]) })
+//@ loop 0 invariant alias without offset,emitted,pending,length,invalid,prefix,frame: sameOrFresh(dst, old(dst))
+//@ loop 0 invariant src-kept without offset,emitted,pending,length,invalid,prefix,frame: unchanged(src)
+//@ loop 0 invariant length without offset,emitted,pending,invalid,prefix,frame: len(dst)-len(old(dst))-1+(n-i)+qLen(src, n, flags.Get(jsonflags.EscapeForHTML), flags.Get(jsonflags.EscapeForJS)) == qLen(src, 0, flags.Get(jsonflags.EscapeForHTML), flags.Get(jsonflags.EscapeForJS))
+//@ loop 0 invariant offset without emitted,pending,invalid,prefix,length,frame: vForall(len(dst)-len(old(dst))-1+(n-i), 1<<63-1, func(p int) bool { return qByte(src, 0, flags.Get(jsonflags.EscapeForHTML), flags.Get(jsonflags.EscapeForJS), p) == qByte(src, n, flags.Get(jsonflags.EscapeForHTML), flags.Get(jsonflags.EscapeForJS), p-(len(dst)-len(old(dst))-1+(n-i))) })
+//@ loop 0 invariant emitted without invalid,prefix,length,frame: vForall(len(old(dst))+1, len(dst), func(p int) bool { return dst[p] == qByte(src, 0, flags.Get(jsonflags.EscapeForHTML), flags.Get(jsonflags.EscapeForJS), p-len(old(dst))-1) })
+//@ loop 0 invariant pending without invalid,prefix,length,emitted,frame: vForall(i, n, func(k int) bool { return src[k] == qByte(src, 0, flags.Get(jsonflags.EscapeForHTML), flags.Get(jsonflags.EscapeForJS), len(dst)-len(old(dst))-1+(k-i)) })
+//@ loop 0 invariant invalid without offset,emitted,pending,length,prefix,frame: (hasInvalidUTF8 || qInvalid(src, n)) == qInvalid(src, 0)
+//@ loop 0 decreases len(src) - n
+//@ at call utf8.DecodeRune#0 assert sub: utf8Len(src[n-rn:], 0) == utf8Len(src, n-rn) && utf8Rune(src[n-rn:], 0) == utf8Rune(src, n-rn)
+//@ at call utf8.DecodeRune#0 assert valid: utf8Len(src, n-rn) > 0 ==> r == utf8Rune(src, n-rn) && rn == utf8Len(src, n-rn)
+//@ at call utf8.DecodeRune#0 assert invalid: utf8Len(src, n-rn) <= 0 ==> r == utf8.RuneError && rn == 1
+//@ at call utf8.DecodeRune#0 assert unit: qUnitLen(src, n-rn) == rn && src[n-rn] >= 0x80
+//@ loop 0 step verbatim-unit without emitted,pending,invalid,prefix,length,offset,frame: i == prev(i) ==> vForall(prev(n), n, func(k int) bool { return src[k] == qByte(src, prev(n), flags.Get(jsonflags.EscapeForHTML), flags.Get(jsonflags.EscapeForJS), k-prev(n)) })
+//@ loop 0 step flushed without emitted,pending,invalid,prefix,length,offset,frame: i != prev(i) ==> i == n && vForall(prev(len(dst)), prev(len(dst))+(prev(n)-prev(i)), func(p int) bool { return dst[p] == prev(src[i+(p-len(dst))]) })
+//@ loop 0 step escaped without emitted,pending,invalid,prefix,length,offset,frame: i != prev(i) ==> vForall(prev(len(dst))+(prev(n)-prev(i)), len(dst), func(p int) bool { return dst[p] == qByte(src, prev(n), flags.Get(jsonflags.EscapeForHTML), flags.Get(jsonflags.EscapeForJS), p-(prev(len(dst))+(prev(n)-prev(i)))) })
+//@ loop 0 step kept without emitted,pending,invalid,prefix,length,offset,frame: len(dst) >= prev(len(dst)) && vForall(0, prev(len(dst)), func(p int) bool { return dst[p] == prev(dst[p]) })
+//@ loop 0 step verbatim-pos without emitted,pending,invalid,prefix,length,frame: i == prev(i) ==> vForall(prev(n), n, func(k int) bool { return qByte(src, 0, flags.Get(jsonflags.EscapeForHTML), flags.Get(jsonflags.EscapeForJS), len(dst)-len(old(dst))-1+(k-i)) == qByte(src, prev(n), flags.Get(jsonflags.EscapeForHTML), flags.Get(jsonflags.EscapeForJS), k-prev(n)) })
+//@ at return assert done without invalid,prefix,length,offset,emitted,pending,frame: n == len(src) && len(result0) >= len(old(dst))+2+(n-i)
+//@ at return assert kept-emitted without invalid,prefix,length,offset,pending,frame: vForall(len(old(dst))+1, len(result0)-1-(n-i), func(p int) bool { return result0[p] == qByte(src, 0, flags.Get(jsonflags.EscapeForHTML), flags.Get(jsonflags.EscapeForJS), p-len(old(dst))-1) })
+//@ at return assert copied without invalid,prefix,length,offset,emitted,pending,frame: vForall(len(result0)-1-(n-i), len(result0)-1, func(p int) bool { return result0[p] == src[i+(p-(len(result0)-1-(n-i)))] })
+//@ at return assert pending-pos without invalid,prefix,length,offset,emitted,frame: vForall(i, n, func(k int) bool { return qByte(src, 0, flags.Get(jsonflags.EscapeForHTML), flags.Get(jsonflags.EscapeForJS), len(result0)-1-(n-i)-len(old(dst))-1+(k-i)) == src[k] })
